@@ -127,7 +127,9 @@ impl Scenario for Pipe {
         let n = sh.lock().users.len();
         for s in 0..n {
           // only subscriptions that are still live: one that already ended must have cleaned up by itself
-          let live = sh.lock().users.get(s).and_then(|u| u.sub.clone()).map(|x| x.is_subscribed()).unwrap_or(false);
+          // (the harness lock is a real mutex: it must not be held across an instrumented call)
+          let sub = sh.lock().users.get(s).and_then(|u| u.sub.clone());
+          let live = sub.map(|x| x.is_subscribed()).unwrap_or(false);
           if live {
             user_unsub(&sh, s);
           }
